@@ -80,4 +80,12 @@ def schedule (skip eintr : Nat) (cap : Nat) (n : Option Nat) (horizon : Nat) : L
    | some k => List.replicate k (.took cap) ++ List.replicate (horizon + 1) (.took SENSIBLE)
    | none => List.replicate (horizon + 1) (.took cap))
 
+/-- the same with the interrupted calls AFTER `after` further (capped) calls: an interruption in the middle of one psf_fwrite / psf_fread
+    (`shortio weintr <n> <after>` next to `shortio w <cap> <n>`) -/
+def scheduleAfter (skip after eintr : Nat) (cap : Nat) (n : Option Nat) (horizon : Nat) : List Ans :=
+  List.replicate skip (.took SENSIBLE) ++
+  (List.replicate (match n with | some k => min after k | none => after) (.took cap) ++
+   List.replicate (match n with | some k => after - min after k | none => 0) (.took SENSIBLE)) ++
+  schedule 0 eintr cap (n.map (· - after)) horizon
+
 end Sf.ShortIo
